@@ -5,3 +5,10 @@ int lintbad_bool_length(const unsigned char *a, const unsigned char *b, size_t n
 {
 	return memcmp(a, b, n != 0);        /* length argument is a truth value */
 }
+
+void lintbad_limb_split(unsigned short *z, unsigned u0, unsigned v0)
+{
+	z[1] = u0 & 0x7FFF;
+	z[2] = (u0 >> 15) & 0x7FFF;
+	z[3] = v0 >> 30;                     /* third limb taken from another variable */
+}
